@@ -8,6 +8,17 @@ package main
 // every read endpoint (AObs).  The graph / behaviours are replayed on an annotation instance
 // synced to a labelmap instance, with a labelsz instance synced to the annotation, as a tree of
 // versions (every transition in a fresh child branch of the version holding its source state).
+//
+// Growth (gaps C13-1,2,4..10 of GAPS.md): one block of the label volume is left un-ingested and
+// holds an element from the start (AIngest: POST raw / POST blocks with a new label or a present,
+// possibly mapped, supervoxel); body split and renumber; voxel writes of 0 / a present supervoxel;
+// reload variants; a restart transition followed by every label operation of the initial state;
+// a labelsz restricted to the ROI; a second annotation (ScanAllForBlocks) and labelsz fanned out
+// from the same labelmap; POST elements with three elements, POST blocks with several blocks,
+// POST labels, move onto an occupied position (refused or replaced), scan, threshold?offset&n;
+// one layout syncs the annotation to a labelarray volume.  The simulation draws the operation
+// class first (uniformly), then the instance, so that rare classes are replayed as often as
+// POST elements.
 
 import (
 	"encoding/json"
@@ -45,15 +56,16 @@ type annElem struct {
 }
 
 type annKey struct {
-	SV  []uint64   `json:"sv"`
-	MP  lmm.MapU64 `json:"mp"`
-	Nxt uint64     `json:"nxt"`
-	All []annElem  `json:"all"`
+	SV    []uint64   `json:"sv"`
+	MP    lmm.MapU64 `json:"mp"`
+	Nxt   uint64     `json:"nxt"`
+	All   []annElem  `json:"all"`
+	Fresh []int      `json:"fresh"`
 }
 
 func (k annKey) Canon() string {
 	b, _ := json.Marshal(k.All)
-	return lmm.Key{SV: k.SV, MP: k.MP, Nxt: k.Nxt}.Canon() + "|" + string(b)
+	return lmm.Key{SV: k.SV, MP: k.MP, Nxt: k.Nxt}.Canon() + "|" + string(b) + "|" + fmt.Sprint(k.Fresh)
 }
 
 // annOp is the `last` record: a Labelmap operation or an element operation.
@@ -64,6 +76,12 @@ type annOp struct {
 	From  int       `json:"from,omitempty"`
 	To    int       `json:"to,omitempty"`
 	Block int       `json:"block,omitempty"`
+	// extended alphabet
+	Variant string `json:"variant,omitempty"` // blocks, blocksall: plain | check | lowmem (the reload that follows)
+	Via     string `json:"via,omitempty"`     // ingest: raw | blocks
+	Outcome string `json:"outcome,omitempty"` // moveonto: refused | replaced
+	Touched []int  `json:"touched,omitempty"` // blocksall: blocks carried by the request
+	newMP   lmm.MapU64 // mapping of the target state (labelarray adapter: the voxels carry the body)
 }
 
 type annRank struct {
@@ -76,9 +94,10 @@ type annObs struct {
 	ByBlock [][]int   `json:"byBlock"`
 	ByTag   [][]int   `json:"byTag"`
 	Bodies  []struct {
-		Label  uint64   `json:"label"`
-		Pos    []int    `json:"pos"`
-		Counts []uint32 `json:"counts"`
+		Label     uint64   `json:"label"`
+		Pos       []int    `json:"pos"`
+		Counts    []uint32 `json:"counts"`
+		RoiCounts []uint32 `json:"roiCounts"`
 	} `json:"bodies"`
 	Ghosts      []uint64 `json:"ghosts"`
 	InBox       [][]int  `json:"inBox"`
@@ -86,10 +105,13 @@ type annObs struct {
 	ROI         []int    `json:"roi"`
 	PosBody     []uint64 `json:"posBody"`
 	Index       []struct {
-		Name     string    `json:"name"`
-		Ranked   []annRank `json:"ranked"`
-		AtLeast2 []annRank `json:"atLeast2"`
+		Name      string    `json:"name"`
+		Ranked    []annRank `json:"ranked"`
+		AtLeast2  []annRank `json:"atLeast2"`
+		RoiRanked []annRank `json:"roiRanked"`
 	} `json:"index"`
+	UsedBlocks []int `json:"usedBlocks"`
+	Fresh      []int `json:"fresh"`
 }
 
 // ---------------------------------------------------------------------------
@@ -115,7 +137,17 @@ type annLayout struct {
 	kinds     []string
 	initElems []annElem
 	overwrite bool // voxel edits (POST raw?mutate=true) are part of the alphabet
+	fresh     []int    // blocks of the label volume left un-ingested at the start
+	classes   []string // operation classes of Annotation.tla in the alphabet
+	deep      []string // classes the exhaustive graph continues with below its first layer
+	variants  []string // reload variants following a block-level ingest
+	fanout    bool     // a second annotation (ScanAllForBlocks) synced to the labelmap, with its own labelsz
+	labelarray bool    // the synced label volume is a labelarray instance (no supervoxels: voxels carry the body)
 }
+
+var annAllClasses = []string{"post1", "pair", "retag", "post3", "delete", "move", "moveonto", "merge", "cleave", "splitsv", "split",
+	"renumber", "overwrite", "overwrite0", "overwritesv", "ingest", "blocks", "blocksall", "restart", "postlabels"}
+
 
 var annRelNames = []string{"PostSynTo", "PreSynTo", "ConvergentTo", "GroupedWith"}
 
@@ -294,14 +326,18 @@ func (lo *annLayout) tlaConstants() string {
 	}
 	sb.WriteString("BoxPosDef == <<" + strings.Join(bp, ", ") + ">>\n")
 	sb.WriteString("BoxBlocksDef == <<" + strings.Join(bb, ", ") + ">>\n")
-	sb.WriteString("ROIBlocksDef == " + tlaIntSet(lo.roiBlocks) + "\n====\n")
+	sb.WriteString("ROIBlocksDef == " + tlaIntSet(lo.roiBlocks) + "\n")
+	sb.WriteString("ClassesDef == " + tlaStrSet(lo.classes) + "\n")
+	sb.WriteString("DeepClassesDef == " + tlaStrSet(lo.deep) + "\n")
+	sb.WriteString("FreshBlocksDef == " + tlaIntSet(lo.fresh) + "\n")
+	sb.WriteString("ReloadVariantsDef == " + tlaStrSet(lo.variants) + "\n====\n")
 	return sb.String()
 }
 
 func (lo *annLayout) config(spec string, maxOps int, invariants, props string) string {
 	s := fmt.Sprintf("SPECIFICATION %s\nCONSTANTS\n  R = %d\n  NB = %d\n  NVox <- NVoxDef\n  InitSV <- InitSVDef\n  InitMax = %d\n  MaxOps = %d\n  Classes1 <- Classes1Def\n  Classes2 <- Classes2Def\n  WithOverwrite = %s\n  WithSplit = FALSE\n",
 		spec, lo.g.R, len(lo.g.Blocks), maxU64(lo.initSV), maxOps, map[bool]string{true: "TRUE", false: "FALSE"}[lo.overwrite])
-	s += fmt.Sprintf("  P = %d\n  PosRegion <- PosRegionDef\n  PosBlock <- PosBlockDef\n  NT = %d\n  KindSeq <- KindSeqDef\n  NRel = %d\n  InitMP <- InitMPDef\n  InitElems <- InitElemsDef\n  NBox = %d\n  BoxPos <- BoxPosDef\n  BoxBlocks <- BoxBlocksDef\n  ROIBlocks <- ROIBlocksDef\n  MaxL = %d\n",
+	s += fmt.Sprintf("  P = %d\n  PosRegion <- PosRegionDef\n  PosBlock <- PosBlockDef\n  NT = %d\n  KindSeq <- KindSeqDef\n  NRel = %d\n  InitMP <- InitMPDef\n  InitElems <- InitElemsDef\n  NBox = %d\n  BoxPos <- BoxPosDef\n  BoxBlocks <- BoxBlocksDef\n  ROIBlocks <- ROIBlocksDef\n  MaxL = %d\n  Classes <- ClassesDef\n  DeepClasses <- DeepClassesDef\n  FreshBlocks <- FreshBlocksDef\n  ReloadVariants <- ReloadVariantsDef\n",
 		lo.P(), lo.nt, lo.nrel, len(lo.boxes), int(maxU64(lo.initSV))+7*maxOps+2)
 	s += "INVARIANTS " + invariants + "\n"
 	if props != "" {
@@ -364,12 +400,16 @@ func annExplore(c *Ctx, lo *annLayout, maxOps, mcOps int) (*annGraph, int64, int
 	var mc, r *tlc.Result
 	together(
 		func() {
-			if mcOps > maxOps {
-				mc = c.MustModelCheck(tlc.Opts{Module: "Annotation_mc", Config: "gen_ann_mc.cfg", Files: files, Workers: 6, Timeout: 25 * time.Minute, HeapGB: 12})
+			if mcOps > maxOps || maxOps > 1 { // (below its first layer the emission follows DeepClasses only)
+				annTLCSem <- struct{}{}
+				defer func() { <-annTLCSem }()
+				mc = c.MustModelCheck(tlc.Opts{Module: "Annotation_mc", Config: "gen_ann_mc.cfg", Files: files, Workers: 4, Timeout: 25 * time.Minute, HeapGB: 6})
 			}
 		},
 		func() {
-			r = c.MustModelCheck(tlc.Opts{Module: "Annotation_mc", Config: "gen_ann_emit.cfg", Files: files, Workers: 4, Timeout: 25 * time.Minute, HeapGB: 12})
+			annTLCSem <- struct{}{}
+			defer func() { <-annTLCSem }()
+			r = c.MustModelCheck(tlc.Opts{Module: "Annotation_mc", Config: "gen_ann_emit.cfg", Files: files, Workers: 4, Timeout: 25 * time.Minute, HeapGB: 6})
 		})
 	if mc == nil {
 		mc = r
@@ -427,9 +467,7 @@ func annExplore(c *Ctx, lo *annLayout, maxOps, mcOps int) (*annGraph, int64, int
 			if !ok {
 				continue
 			}
-			if e.L.Op.Op == "overwrite" {
-				e.L.Op.NewSV = e.T.SV
-			}
+			e.L.Op.NewSV, e.L.Op.OldSV, e.L.newMP = e.T.SV, e.S.SV, e.T.MP
 			gr.edges = append(gr.edges, annEdge{S: *e.S, L: e.L, T: e.T, Obs: ob})
 			ei := len(gr.edges) - 1
 			src.out = append(src.out, ei)
@@ -444,6 +482,9 @@ func annExplore(c *Ctx, lo *annLayout, maxOps, mcOps int) (*annGraph, int64, int
 	}
 	return gr, mc.Distinct, mc.Generated
 }
+
+// annTLCSem bounds the number of TLC processes of this check that run at the same time.
+var annTLCSem = make(chan struct{}, 6)
 
 // together runs the functions concurrently and re-raises the first infrastructure error.
 func together(fs ...func()) {
@@ -477,16 +518,19 @@ type annStep struct {
 func annSimulate(c *Ctx, lo *annLayout, num, maxOps int, seed int64) ([][]annStep, int64) {
 	files := lo.files()
 	files["gen_ann_sim.cfg"] = []byte(lo.config("ASpecSim", maxOps, "Inv_C13", ""))
+	annTLCSem <- struct{}{}
+	defer func() { <-annTLCSem }()
 	for try := 0; try < 2; try++ {
 		r := c.RunTLC(tlc.Opts{Module: "Annotation_sim", Config: "gen_ann_sim.cfg", Files: files, Workers: 1,
-			Simulate: fmt.Sprintf("num=%d", num), Depth: 2*maxOps + 4, Seed: seed + int64(try)*7919, Timeout: 20 * time.Minute})
+			Simulate: fmt.Sprintf("num=%d", num), Depth: 12*maxOps + 8, Seed: seed + int64(try)*7919, Timeout: 20 * time.Minute})
 		var out [][]annStep
 		PrintedJSON(r.Output, func(raw []byte) {
 			var h []annStep
 			if json.Unmarshal(raw, &h) == nil && len(h) > 1 && h[0].L.Op.Op == "init" {
 				for i := range h {
-					if h[i].L.Op.Op == "overwrite" {
-						h[i].L.Op.NewSV = h[i].K.SV
+					h[i].L.Op.NewSV, h[i].L.newMP = h[i].K.SV, h[i].K.MP
+					if i > 0 {
+						h[i].L.Op.OldSV = h[i-1].K.SV
 					}
 				}
 				out = append(out, h)
@@ -547,6 +591,9 @@ type annWorker struct {
 	reqs        int64
 	late        int64
 	reloadDiffs []string
+	syns, lszs  []string // annotation / labelsz instances of the repo
+	otherOutcome int64   // moves onto an occupied position whose real outcome was the other permitted one
+	cur          []annOp // operations leading to the state being compared (for messages)
 }
 
 func (w *annWorker) http(method, url string, body []byte) node.Resp {
@@ -657,13 +704,17 @@ func eqStrs(a, b []string) bool {
 // it, labelsz synced to the annotation, an ROI, the initial elements; compares and commits.
 func (w *annWorker) start(initObs annObs) (string, *lmm.Labels) {
 	lo := w.lo
-	w.n = w.c.StartNode(node.Config{})
+	w.n = w.c.StartNode(node.Config{AllowSplit: true})
 	r := w.mustOK("POST", "/api/repos", []byte(`{"alias":"ann"}`))
 	var o struct{ Root string }
 	json.Unmarshal(r.Bytes(), &o)
 	w.root = o.Root
 	w.in = &lmm.Inst{N: w.n, G: lo.g, Name: "seg", Root: o.Root}
-	must(w.in.Create(map[string]string{}), "create labelmap")
+	if lo.labelarray {
+		must(w.in.Create(map[string]string{"typename": "labelarray"}), "create labelarray")
+	} else {
+		must(w.in.Create(map[string]string{}), "create labelmap")
+	}
 	mk := func(typ, name string, extra map[string]string) {
 		m := map[string]string{"typename": typ, "dataname": name}
 		for k, v := range extra {
@@ -685,9 +736,28 @@ func (w *annWorker) start(initObs annObs) (string, *lmm.Labels) {
 	}
 	sb, _ := json.Marshal(spans)
 	w.mustOK("POST", base+"/zone/roi", sb)
+	// a second labelsz on the same annotation, restricted to the region of interest
+	mk("labelsz", "lszroi", map[string]string{"ROI": "zone," + o.Root})
+	w.mustOK("POST", base+"/lszroi/sync", []byte(`{"sync":"syn"}`))
+	w.syns, w.lszs = []string{"syn"}, []string{"lsz", "lszroi"}
+	if lo.fanout {
+		// a second annotation fed by the same labelmap (block reads by one range scan), with its own labelsz
+		mk("annotation", "syn2", nil)
+		mk("labelsz", "lsz2", nil)
+		w.mustOK("POST", base+"/syn2/sync", []byte(`{"sync":"seg"}`))
+		w.mustOK("POST", base+"/lsz2/sync", []byte(`{"sync":"syn2"}`))
+		w.mustOK("POST", base+"/syn2/tags", []byte(`{"ScanAllForBlocks":"true"}`))
+		w.syns, w.lszs = append(w.syns, "syn2"), append(w.lszs, "lsz2")
+	}
+	isFresh := map[int]bool{}
+	for _, b := range lo.fresh {
+		isFresh[b] = true
+	}
 	var blocks []int
 	for b := range lo.g.Blocks {
-		blocks = append(blocks, b+1)
+		if !isFresh[b+1] {
+			blocks = append(blocks, b+1)
+		}
 	}
 	must(w.in.Ingest(o.Root, lo.initSV, blocks, false), "ingest")
 	must(w.in.Idle(), "idle")
@@ -717,10 +787,12 @@ func (w *annWorker) start(initObs annObs) (string, *lmm.Labels) {
 	initOp := annOp{Op: lmm.Op{Op: "post"}, Elems: lo.initElems}
 	if len(lo.initElems) > 0 {
 		pb, _ := json.Marshal(lo.realElems(lo.initElems, true))
-		r := w.http("POST", base+"/syn/elements", pb)
-		if r.Status != 200 {
-			w.report("initial-post-refused", nil, initOp, "POST syn/elements "+string(pb), r, []string{fmt.Sprintf("status %d", r.Status)}, lab)
-			return "", nil
+		for _, syn := range w.syns {
+			r := w.http("POST", base+"/"+syn+"/elements", pb)
+			if r.Status != 200 {
+				w.report("initial-post-refused", nil, initOp, "POST "+syn+"/elements "+string(pb), r, []string{fmt.Sprintf("status %d", r.Status)}, lab)
+				return "", nil
+			}
 		}
 	}
 	if d := w.settle(o.Root, initObs, lab, 2*time.Second); len(d) > 0 {
@@ -783,6 +855,11 @@ func (w *annWorker) settlePart(uuid string, want annObs, lab *lmm.Labels, patien
 		return nil
 	}
 	deadline := time.Now().Add(patience)
+	if strings.HasPrefix(d[0], annLabelsDiverged) && patience < 15*time.Second {
+		// the label volume itself has not settled (not this property's matter): wait longer before
+		// giving up with an infrastructure error
+		deadline = time.Now().Add(15 * time.Second)
+	}
 	sleep := 2 * time.Millisecond
 	for len(d) > 0 && time.Now().Before(deadline) {
 		time.Sleep(sleep)
@@ -795,7 +872,8 @@ func (w *annWorker) settlePart(uuid string, want annObs, lab *lmm.Labels, patien
 	if len(d) == 0 {
 		atomic.AddInt64(&w.late, 1)
 	} else if strings.HasPrefix(d[0], annLabelsDiverged) {
-		infra("%s", d[0])
+		cur, _ := json.Marshal(w.cur)
+		infra("%s [layout %s, version %s, after %s; server log: %s]", d[0], w.lo.name, uuid, cur, w.n.StderrTail(600))
 	}
 	return d
 }
@@ -807,28 +885,49 @@ func (w *annWorker) apply(uuid string, op annOp, want annObs, lab *lmm.Labels) (
 	lo := w.lo
 	base := "/api/node/" + uuid
 	pt := func(p int) string { v := lo.pos[p-1]; return fmt.Sprintf("%d_%d_%d", v[0], v[1], v[2]) }
+	// element operations go to every annotation instance of the repo
+	each := func(insts []string, method, path string, body []byte) node.Resp {
+		var r node.Resp
+		for _, inst := range insts {
+			r = w.http(method, base+"/"+inst+path, body)
+			if r.Status != 200 {
+				return r
+			}
+		}
+		return r
+	}
 	switch op.Op.Op {
 	case "post":
 		b, _ := json.Marshal(lo.realElems(op.Elems, true))
 		req = "POST syn/elements " + string(b)
-		resp = w.http("POST", base+"/syn/elements", b)
+		resp = each(w.syns, "POST", "/elements", b)
 	case "delete":
 		req = "DELETE syn/element/" + pt(op.Pos)
-		resp = w.http("DELETE", base+"/syn/element/"+pt(op.Pos), nil)
-	case "move":
+		resp = each(w.syns, "DELETE", "/element/"+pt(op.Pos), nil)
+	case "move", "moveonto":
 		req = "POST syn/move/" + pt(op.From) + "/" + pt(op.To)
-		resp = w.http("POST", base+"/syn/move/"+pt(op.From)+"/"+pt(op.To), nil)
-	case "blocks":
-		bc := lo.g.Blocks[op.Block-1]
-		m := map[string][]realElem{fmt.Sprintf("%d,%d,%d", bc[0], bc[1], bc[2]): lo.realElems(op.Elems, true)}
+		resp = each(w.syns, "POST", "/move/"+pt(op.From)+"/"+pt(op.To), nil)
+	case "blocks", "blocksall":
+		bkey := func(b int) string { bc := lo.g.Blocks[b-1]; return fmt.Sprintf("%d,%d,%d", bc[0], bc[1], bc[2]) }
+		m := map[string][]realElem{}
+		if op.Op.Op == "blocks" {
+			m[bkey(op.Block)] = lo.realElems(op.Elems, true)
+		} else {
+			for _, b := range op.Touched {
+				m[bkey(b)] = []realElem{}
+			}
+			for _, e := range op.Elems {
+				k := bkey(lo.posBlock[e.Pos-1])
+				m[k] = append(m[k], lo.realElem(e, true))
+			}
+		}
+		q := map[string]string{"": "", "plain": "", "check": "?check=true", "lowmem": "?inmemory=false"}[op.Variant]
 		b, _ := json.Marshal(m)
-		req = "POST syn/blocks " + string(b) + "; POST syn/reload; POST lsz/reload"
-		resp = w.http("POST", base+"/syn/blocks", b)
-		if resp.Status != 200 {
+		req = "POST syn/blocks " + string(b) + "; POST syn/reload" + q + "; POST lsz/reload"
+		if resp = each(w.syns, "POST", "/blocks", b); resp.Status != 200 {
 			return "valid-operation-refused", req, resp
 		}
-		resp = w.http("POST", base+"/syn/reload", nil)
-		if resp.Status != 200 {
+		if resp = each(w.syns, "POST", "/reload"+q, nil); resp.Status != 200 {
 			return "valid-operation-refused", req, resp
 		}
 		// the reload runs in a goroutine nothing waits for: the annotation views are compared as
@@ -837,16 +936,66 @@ func (w *annWorker) apply(uuid string, op annOp, want annObs, lab *lmm.Labels) (
 			w.reloadDiffs = d
 			return "views-differ-after-reload", req, resp
 		}
-		w.waitReload("syn")
-		resp = w.http("POST", base+"/lsz/reload", nil)
-		if resp.Status != 200 {
+		for _, syn := range w.syns {
+			w.waitReload(syn)
+		}
+		if resp = each(w.lszs, "POST", "/reload", nil); resp.Status != 200 {
 			return "valid-operation-refused", req, resp
 		}
-	case "merge", "cleave", "splitsv", "overwrite":
-		st, _, err := w.in.Apply(uuid, op.Op, lab)
+	case "merge", "cleave", "splitsv", "overwrite", "split", "renumber":
+		lop := op.Op
+		if lo.labelarray && lop.Op == "overwrite" {
+			lop = w.bodiesOp(op)
+		}
+		st, _, err := w.in.Apply(uuid, lop, lab)
 		must(err, "apply "+op.Op.Op)
 		req = "labelmap " + op.Op.Op
 		resp = node.Resp{Status: st}
+		if op.Op.Op == "split" && st == 200 && lo.labelarray {
+			lab.BindFromVolume = false // a labelarray split allocates the new body only
+		} else if op.Op.Op == "split" && st == 200 {
+			// the ids of the split / remain supervoxels are not in the response: bound from the voxels
+			must(w.n.Idle(), "idle")
+			bad, err := w.in.BindFromSupervoxels(uuid, op.Op.NewSV, lab)
+			must(err, "bind supervoxels after split")
+			if len(bad) > 0 {
+				infra("%s%s", annLabelsDiverged, strings.Join(bad, "; "))
+			}
+		}
+	case "ingest":
+		lop := op.Op
+		if lo.labelarray {
+			lop = w.bodiesOp(op)
+		}
+		st, err := w.in.IngestFresh(uuid, lop, op.Block, op.Via, lab)
+		must(err, "ingest")
+		req = fmt.Sprintf("labelmap ingest of block %d via %s", op.Block, op.Via)
+		resp = node.Resp{Status: st}
+	case "restart":
+		must(w.n.Idle(), "idle")
+		must(w.n.Restart(true), "restart")
+		req = "restart of the server"
+		resp = node.Resp{Status: 200}
+	case "postlabels":
+		full := map[int]annElem{}
+		for _, e := range want.All {
+			full[e.Pos] = e
+		}
+		m := map[string]string{}
+		for _, bd := range want.Bodies {
+			if len(bd.Pos) == 0 {
+				continue
+			}
+			var es []realElem
+			for _, p := range bd.Pos {
+				es = append(es, lo.realElem(full[p], false))
+			}
+			eb, _ := json.Marshal(es)
+			m[fmt.Sprint(lab.Real(bd.Label))] = string(eb)
+		}
+		b, _ := json.Marshal(m)
+		req = "POST syn/labels " + string(b)
+		resp = each(w.syns, "POST", "/labels", b)
 	default:
 		infra("unknown specification operation %q", op.Op.Op)
 	}
@@ -854,6 +1003,31 @@ func (w *annWorker) apply(uuid string, op annOp, want annObs, lab *lmm.Labels) (
 		return "valid-operation-refused", req, resp
 	}
 	return "", req, resp
+}
+
+// bodiesOp rewrites a voxel write for a labelarray volume, whose voxels carry the body instead
+// of a supervoxel: the arrays of the operation are mapped through the specification's mapping.
+func (w *annWorker) bodiesOp(op annOp) lmm.Op {
+	lop := op.Op
+	body := func(s uint64) uint64 {
+		if b, ok := op.newMP[fmt.Sprint(s)]; ok {
+			return b
+		}
+		return s
+	}
+	lop.NewSV = make([]uint64, len(op.Op.NewSV))
+	for i, s := range op.Op.NewSV {
+		lop.NewSV[i] = body(s)
+	}
+	// a written supervoxel that is present is written as its body, a label the client knows; a
+	// label new to the volume stays what it is (bound to a real label by the adapter)
+	for _, l := range op.Op.OldSV {
+		if l == op.Op.Label && l != 0 {
+			lop.Label = body(l)
+			lop.OldSV = append(append([]uint64(nil), op.Op.OldSV...), lop.Label)
+		}
+	}
+	return lop
 }
 
 func (w *annWorker) getElems(url string, body []byte) ([]realElem, string) {
@@ -910,25 +1084,7 @@ func (w *annWorker) getBlocks(url string) (map[int][]realElem, string) {
 // compare reads every endpoint of the property at uuid and compares with the derived views.
 func (w *annWorker) compare(uuid string, want annObs, lab *lmm.Labels, withLsz bool) []string {
 	lo := w.lo
-	var d []string
 	base := "/api/node/" + uuid
-	full := map[int]realElem{}
-	for _, e := range want.All {
-		full[e.Pos] = lo.realElem(e, true)
-	}
-	expect := func(ps []int) []realElem {
-		out := make([]realElem, 0, len(ps))
-		for _, p := range ps {
-			out = append(out, full[p])
-		}
-		return out
-	}
-	cmp := func(what string, got []realElem, ps []int, withRels bool) {
-		g, e := canonList(got, withRels), canonList(expect(ps), withRels)
-		if !eqStrs(g, e) {
-			d = append(d, fmt.Sprintf("%s returns %v, the element set gives %v", what, g, e))
-		}
-	}
 	// 0. the label volume is where the specification says (otherwise not an annotation matter)
 	pb, _ := json.Marshal(lo.pos)
 	r := w.http("GET", base+"/seg/labels", pb)
@@ -943,10 +1099,45 @@ func (w *annWorker) compare(uuid string, want annObs, lab *lmm.Labels, withLsz b
 			return []string{fmt.Sprintf("%sposition %d reads body %d, specification %d (real %d)", annLabelsDiverged, i+1, got[i], want.PosBody[i], lab.Real(want.PosBody[i]))}
 		}
 	}
+	var d []string
+	for _, syn := range w.syns {
+		d = append(d, w.compareAnn(uuid, syn, want, lab)...)
+	}
+	if !withLsz {
+		return d
+	}
+	for _, lsz := range w.lszs {
+		d = append(d, w.compareLsz(uuid, lsz, lsz == "lszroi", want, lab)...)
+	}
+	return d
+}
+
+// compareAnn: the read endpoints of one annotation instance.
+func (w *annWorker) compareAnn(uuid, syn string, want annObs, lab *lmm.Labels) []string {
+	lo := w.lo
+	var d []string
+	base := "/api/node/" + uuid + "/" + syn
+	full := map[int]realElem{}
+	for _, e := range want.All {
+		full[e.Pos] = lo.realElem(e, true)
+	}
+	expect := func(ps []int) []realElem {
+		out := make([]realElem, 0, len(ps))
+		for _, p := range ps {
+			out = append(out, full[p])
+		}
+		return out
+	}
+	cmp := func(what string, got []realElem, ps []int, withRels bool) {
+		g, e := canonList(got, withRels), canonList(expect(ps), withRels)
+		if !eqStrs(g, e) {
+			d = append(d, fmt.Sprintf("%s %s returns %v, the element set gives %v", syn, what, g, e))
+		}
+	}
 	// 1. all-elements
-	bm, bad := w.getBlocks(base + "/syn/all-elements")
+	bm, bad := w.getBlocks(base + "/all-elements")
 	if bad != "" {
-		d = append(d, "all-elements: "+bad)
+		d = append(d, syn+" all-elements: "+bad)
 	} else {
 		for b := 1; b <= len(lo.g.Blocks); b++ {
 			cmp(fmt.Sprintf("all-elements block %d", b), bm[b], want.ByBlock[b-1], true)
@@ -955,15 +1146,15 @@ func (w *annWorker) compare(uuid string, want annObs, lab *lmm.Labels, withLsz b
 	// 2. boxes: elements/<size>/<offset> and blocks/<size>/<offset>
 	for x, bx := range lo.boxes {
 		sz := fmt.Sprintf("%d_%d_%d/%d_%d_%d", bx.Size[0], bx.Size[1], bx.Size[2], bx.Off[0], bx.Off[1], bx.Off[2])
-		es, bad := w.getElems(base+"/syn/elements/"+sz, nil)
+		es, bad := w.getElems(base+"/elements/"+sz, nil)
 		if bad != "" {
-			d = append(d, "elements/"+sz+": "+bad)
+			d = append(d, syn+" elements/"+sz+": "+bad)
 		} else {
 			cmp("elements/"+sz, es, want.InBox[x], true)
 		}
-		bm, bad := w.getBlocks(base + "/syn/blocks/" + sz)
+		bm, bad := w.getBlocks(base + "/blocks/" + sz)
 		if bad != "" {
-			d = append(d, "blocks/"+sz+": "+bad)
+			d = append(d, syn+" blocks/"+sz+": "+bad)
 		} else {
 			var all []realElem
 			for b, es := range bm {
@@ -974,7 +1165,7 @@ func (w *annWorker) compare(uuid string, want annObs, lab *lmm.Labels, withLsz b
 					}
 				}
 				if !inBox && len(es) > 0 {
-					d = append(d, fmt.Sprintf("blocks/%s returns block %d which does not intersect the box", sz, b))
+					d = append(d, fmt.Sprintf("%s blocks/%s returns block %d which does not intersect the box", syn, sz, b))
 				}
 				all = append(all, es...)
 			}
@@ -983,142 +1174,188 @@ func (w *annWorker) compare(uuid string, want annObs, lab *lmm.Labels, withLsz b
 	}
 	// 3. tags, with and without relationships
 	for t := 1; t <= lo.nt; t++ {
-		es, bad := w.getElems(fmt.Sprintf("%s/syn/tag/t%d", base, t), nil)
+		es, bad := w.getElems(fmt.Sprintf("%s/tag/t%d", base, t), nil)
 		if bad != "" {
-			d = append(d, fmt.Sprintf("tag/t%d: %s", t, bad))
+			d = append(d, fmt.Sprintf("%s tag/t%d: %s", syn, t, bad))
 		} else {
 			cmp(fmt.Sprintf("tag/t%d", t), es, want.ByTag[t-1], false)
 		}
-		es, bad = w.getElems(fmt.Sprintf("%s/syn/tag/t%d?relationships=true", base, t), nil)
+		es, bad = w.getElems(fmt.Sprintf("%s/tag/t%d?relationships=true", base, t), nil)
 		if bad != "" {
-			d = append(d, fmt.Sprintf("tag/t%d?relationships=true: %s", t, bad))
+			d = append(d, fmt.Sprintf("%s tag/t%d?relationships=true: %s", syn, t, bad))
 		} else {
 			cmp(fmt.Sprintf("tag/t%d?relationships=true", t), es, want.ByTag[t-1], true)
 		}
 	}
-	es, bad := w.getElems(base+"/syn/tag/neverused", nil)
+	es, bad := w.getElems(base+"/tag/neverused", nil)
 	if bad != "" || len(es) != 0 {
-		d = append(d, fmt.Sprintf("tag/neverused: %s %v", bad, es))
+		d = append(d, fmt.Sprintf("%s tag/neverused: %s %v", syn, bad, es))
 	}
 	// 4. bodies: label/<l>, and labels that are not bodies
-	type lq struct {
-		real uint64
-		pos  []int
-	}
-	var lqs []lq
-	var allLabels []uint64
-	for _, b := range want.Bodies {
-		lqs = append(lqs, lq{lab.Real(b.Label), b.Pos})
-		allLabels = append(allLabels, lab.Real(b.Label))
-	}
-	for _, l := range want.Ghosts {
-		// numbers the specification skipped (voxel edits take nxt+7) were never labels on the real
-		// side, where the same number may have been handed out for another specification label
-		if _, bound := lab.ToReal[l]; !bound && l > maxU64(lo.initSV) {
-			continue
-		}
-		lqs = append(lqs, lq{lab.Real(l), nil})
-		allLabels = append(allLabels, lab.Real(l))
-	}
-	for _, q := range lqs {
-		es, bad := w.getElems(fmt.Sprintf("%s/syn/label/%d", base, q.real), nil)
+	for _, q := range w.labelQueries(want, lab) {
+		es, bad := w.getElems(fmt.Sprintf("%s/label/%d", base, q.real), nil)
 		if bad != "" {
-			d = append(d, fmt.Sprintf("label/%d: %s", q.real, bad))
+			d = append(d, fmt.Sprintf("%s label/%d: %s", syn, q.real, bad))
 		} else {
 			cmp(fmt.Sprintf("label/%d", q.real), es, q.pos, false)
 		}
-		es, bad = w.getElems(fmt.Sprintf("%s/syn/label/%d?relationships=true", base, q.real), nil)
+		es, bad = w.getElems(fmt.Sprintf("%s/label/%d?relationships=true", base, q.real), nil)
 		if bad != "" {
-			d = append(d, fmt.Sprintf("label/%d?relationships=true: %s", q.real, bad))
+			d = append(d, fmt.Sprintf("%s label/%d?relationships=true: %s", syn, q.real, bad))
 		} else {
 			cmp(fmt.Sprintf("label/%d?relationships=true", q.real), es, q.pos, true)
 		}
 	}
 	// 5. region of interest
-	es, bad = w.getElems(base+"/syn/roi/zone", nil)
+	es, bad = w.getElems(base+"/roi/zone", nil)
 	if bad != "" {
-		d = append(d, "roi/zone: "+bad)
+		d = append(d, syn+" roi/zone: "+bad)
 	} else {
 		cmp("roi/zone", es, want.ROI, true)
 	}
-	// 6. labelsz
-	if !withLsz {
-		return d
+	// 6. scan: each of the four ways of walking the block keys sees a non-empty key for every block in use
+	for _, q := range []string{"", "?byCoord=true", "?keysOnly=true", "?byCoord=true&keysOnly=true"} {
+		r := w.http("GET", base+"/scan"+q, nil)
+		var sc struct {
+			NumKV    uint64 `json:"num kv pairs"`
+			NumEmpty uint64 `json:"num empty blocks"`
+		}
+		if r.Status != 200 || json.Unmarshal(r.Bytes(), &sc) != nil {
+			d = append(d, fmt.Sprintf("%s scan%s: %d %.200s", syn, q, r.Status, r.Bytes()))
+			continue
+		}
+		if int(sc.NumKV)-int(sc.NumEmpty) < len(want.UsedBlocks) {
+			d = append(d, fmt.Sprintf("%s scan%s reports %d block keys (%d empty), the element set occupies %d blocks", syn, q, sc.NumKV, sc.NumEmpty, len(want.UsedBlocks)))
+		}
+	}
+	return d
+}
+
+type annLabelQuery struct {
+	real uint64
+	pos  []int
+}
+
+// labelQueries: every body with its positions, and the labels that are not bodies (nothing).
+func (w *annWorker) labelQueries(want annObs, lab *lmm.Labels) []annLabelQuery {
+	var lqs []annLabelQuery
+	for _, b := range want.Bodies {
+		lqs = append(lqs, annLabelQuery{lab.Real(b.Label), b.Pos})
+	}
+	for _, l := range want.Ghosts {
+		// numbers the specification skipped (voxel edits take nxt+7) were never labels on the real
+		// side, where the same number may have been handed out for another specification label
+		if _, bound := lab.ToReal[l]; !bound && l > maxU64(w.lo.initSV) {
+			continue
+		}
+		lqs = append(lqs, annLabelQuery{lab.Real(l), nil})
+	}
+	return lqs
+}
+
+// compareLsz: the read endpoints of one labelsz instance (roi: the instance restricted to the
+// region of interest).
+func (w *annWorker) compareLsz(uuid, lsz string, roi bool, want annObs, lab *lmm.Labels) []string {
+	var d []string
+	base := "/api/node/" + uuid + "/" + lsz
+	var allLabels []uint64
+	for _, q := range w.labelQueries(want, lab) {
+		allLabels = append(allLabels, q.real)
 	}
 	lb, _ := json.Marshal(allLabels)
 	for j, ix := range want.Index {
 		wantCount := map[uint64]uint32{}
-		for _, b := range want.Bodies {
-			wantCount[lab.Real(b.Label)] = b.Counts[j]
+		countOf := func(i int) uint32 {
+			if roi {
+				return want.Bodies[i].RoiCounts[j]
+			}
+			return want.Bodies[i].Counts[j]
+		}
+		for i, b := range want.Bodies {
+			wantCount[lab.Real(b.Label)] = countOf(i)
 		}
 		// counts (batch)
-		r := w.http("GET", base+"/lsz/counts/"+ix.Name, lb)
+		r := w.http("GET", base+"/counts/"+ix.Name, lb)
 		var cs []map[string]uint64
 		if r.Status != 200 || json.Unmarshal(r.Bytes(), &cs) != nil || len(cs) != len(allLabels) {
-			d = append(d, fmt.Sprintf("labelsz counts/%s %v: %d %.300s", ix.Name, allLabels, r.Status, r.Bytes()))
+			d = append(d, fmt.Sprintf("%s counts/%s %v: %d %.300s", lsz, ix.Name, allLabels, r.Status, r.Bytes()))
 		} else {
 			for i, l := range allLabels {
 				if cs[i]["Label"] != l || uint32(cs[i][ix.Name]) != wantCount[l] {
-					d = append(d, fmt.Sprintf("labelsz counts/%s: label %d answered %v, the element set gives %d", ix.Name, l, cs[i], wantCount[l]))
+					d = append(d, fmt.Sprintf("%s counts/%s: label %d answered %v, the element set gives %d", lsz, ix.Name, l, cs[i], wantCount[l]))
 				}
 			}
 		}
 		// count (single) for the bodies
-		for _, b := range want.Bodies {
+		for i, b := range want.Bodies {
 			l := lab.Real(b.Label)
-			r := w.http("GET", fmt.Sprintf("%s/lsz/count/%d/%s", base, l, ix.Name), nil)
+			r := w.http("GET", fmt.Sprintf("%s/count/%d/%s", base, l, ix.Name), nil)
 			var c map[string]uint64
-			if r.Status != 200 || json.Unmarshal(r.Bytes(), &c) != nil || c["Label"] != l || uint32(c[ix.Name]) != b.Counts[j] {
-				d = append(d, fmt.Sprintf("labelsz count/%d/%s: %d %.200s, the element set gives %d", l, ix.Name, r.Status, r.Bytes(), b.Counts[j]))
+			if r.Status != 200 || json.Unmarshal(r.Bytes(), &c) != nil || c["Label"] != l || uint32(c[ix.Name]) != countOf(i) {
+				d = append(d, fmt.Sprintf("%s count/%d/%s: %d %.200s, the element set gives %d", lsz, l, ix.Name, r.Status, r.Bytes(), countOf(i)))
 			}
 		}
-		// top and threshold: descending sizes; ties in any order
+		// top and threshold: descending sizes; ties in any order; a label without elements of
+		// the type is not listed
+		ranked, atLeast2 := ix.Ranked, ix.AtLeast2
+		if roi {
+			ranked, atLeast2 = ix.RoiRanked, nil
+			for _, x := range ix.RoiRanked {
+				if x.N >= 2 {
+					atLeast2 = append(atLeast2, x)
+				}
+			}
+		}
 		valid := map[string]bool{}
-		for _, x := range ix.Ranked {
+		for _, x := range ranked {
 			valid[fmt.Sprintf("%d:%d", lab.Real(x.Label), x.N)] = true
 		}
-		rank := func(what string, wantSeq []annRank) {
-			r := w.http("GET", base+"/lsz/"+what, nil)
+		rank := func(what string, wantSeq []annRank, alt ...[]annRank) {
+			r := w.http("GET", base+"/"+what, nil)
 			var got []struct {
 				Label uint64
 				Size  uint32
 			}
 			if r.Status != 200 || json.Unmarshal(r.Bytes(), &got) != nil {
-				d = append(d, fmt.Sprintf("labelsz %s: %d %.200s", what, r.Status, r.Bytes()))
+				d = append(d, fmt.Sprintf("%s %s: %d %.200s", lsz, what, r.Status, r.Bytes()))
 				return
 			}
-			// an entry with size 0 states a true count; the property does not forbid listing it
-			for len(got) > 0 && got[len(got)-1].Size == 0 {
-				got = got[:len(got)-1]
-			}
-			ok := len(got) == len(wantSeq)
-			seen := map[uint64]bool{}
-			for i := 0; ok && i < len(got); i++ {
-				if got[i].Size != wantSeq[i].N || !valid[fmt.Sprintf("%d:%d", got[i].Label, got[i].Size)] || seen[got[i].Label] {
-					ok = false
+			ok := false
+			for _, ws := range append([][]annRank{wantSeq}, alt...) {
+				fits := len(got) == len(ws)
+				seen := map[uint64]bool{}
+				for i := 0; fits && i < len(got); i++ {
+					if got[i].Size != ws[i].N || !valid[fmt.Sprintf("%d:%d", got[i].Label, got[i].Size)] || seen[got[i].Label] {
+						fits = false
+					}
+					seen[got[i].Label] = true
 				}
-				seen[got[i].Label] = true
+				ok = ok || fits
 			}
 			if !ok {
 				var ws []string
 				for _, x := range wantSeq {
 					ws = append(ws, fmt.Sprintf("{%d %d}", lab.Real(x.Label), x.N))
 				}
-				d = append(d, fmt.Sprintf("labelsz %s returns %v, the element set gives %v (ties in any order)", what, got, ws))
+				d = append(d, fmt.Sprintf("%s %s returns %v, the element set gives %v (ties in any order)", lsz, what, got, ws))
 			}
 		}
-		rank("top/20/"+ix.Name, ix.Ranked)
-		if len(ix.Ranked) > 0 {
-			rank("top/1/"+ix.Name, ix.Ranked[:1])
+		rank("top/20/"+ix.Name, ranked)
+		if len(ranked) > 0 {
+			rank("top/1/"+ix.Name, ranked[:1])
 		}
-		rank("threshold/1/"+ix.Name, ix.Ranked)
-		rank("threshold/2/"+ix.Name, ix.AtLeast2)
+		rank("threshold/1/"+ix.Name, ranked)
+		rank("threshold/2/"+ix.Name, atLeast2)
+		if len(ranked) > 1 {
+			// "offset: the starting rank": the interface text leaves open whether ranks start at 0 or 1
+			rank("threshold/1/"+ix.Name+"?offset=1&n=1", ranked[1:2], ranked[0:1])
+		}
 	}
 	return d
 }
 
 func (w *annWorker) patience(op annOp) time.Duration {
-	if op.Op.Op == "blocks" {
+	if op.Op.Op == "blocks" || op.Op.Op == "blocksall" {
 		return 10 * time.Second
 	}
 	return 2 * time.Second
@@ -1128,8 +1365,24 @@ func (w *annWorker) patience(op annOp) time.Duration {
 // whether the implementation is in the target state.  path = operations before op.
 func (w *annWorker) step(parent string, path []annOp, op annOp, want annObs, lab *lmm.Labels) (string, bool) {
 	child := w.branch(parent)
+	w.cur = append(append([]annOp(nil), path...), op)
 	fail, req, resp := w.apply(child, op, want, lab)
 	atomic.AddInt64(w.edges, 1)
+	if op.Op.Op == "moveonto" {
+		// two outcomes are permitted (Annotation.tla MoveOnto); the transition is validated when
+		// the server chose the outcome of this transition, its sibling transition covers the other
+		if (op.Outcome == "refused") == (fail == "") {
+			atomic.AddInt64(&w.otherOutcome, 1)
+			return child, false
+		}
+		if op.Outcome == "refused" {
+			if resp.Status < 400 || resp.Status >= 500 {
+				w.report("refusal-is-not-a-client-error", path, op, req, resp, []string{fmt.Sprintf("status %d", resp.Status)}, lab)
+				return child, false
+			}
+			fail = ""
+		}
+	}
 	if fail == "views-differ-after-reload" {
 		w.report(fail, path, op, req, node.Resp{}, w.reloadDiffs, lab)
 		return child, false
@@ -1139,8 +1392,10 @@ func (w *annWorker) step(parent string, path []annOp, op annOp, want annObs, lab
 		return child, false
 	}
 	d := w.settle(child, want, lab, w.patience(op))
-	if op.Op.Op == "blocks" {
-		w.waitReload("lsz")
+	if op.Op.Op == "blocks" || op.Op.Op == "blocksall" {
+		for _, lsz := range w.lszs {
+			w.waitReload(lsz)
+		}
 	}
 	if len(d) > 0 {
 		w.report("views-differ-after-operation", path, op, req, node.Resp{}, d, lab)
@@ -1150,8 +1405,25 @@ func (w *annWorker) step(parent string, path []annOp, op annOp, want annObs, lab
 }
 
 func opClass(op annOp) string {
-	if op.Op.Op == "post" {
+	switch op.Op.Op {
+	case "post":
 		return fmt.Sprintf("post%d", len(op.Elems))
+	case "blocks", "blocksall":
+		return op.Op.Op + "+reload:" + op.Variant
+	case "moveonto":
+		return "moveonto:" + op.Outcome
+	case "ingest":
+		return "ingest:" + op.Via
+	case "overwrite":
+		if op.Op.Label == 0 {
+			return "overwrite:erase"
+		}
+		for _, l := range op.Op.OldSV {
+			if l == op.Op.Label {
+				return "overwrite:present-supervoxel"
+			}
+		}
+		return "overwrite:new-label"
 	}
 	return op.Op.Op
 }
@@ -1161,25 +1433,58 @@ func checkC13(c *Ctx) int {
 	t0 := time.Now()
 	rng := rand.New(rand.NewSource(c.Seed*7 + 13))
 	small := lmm.NewGeom(c.Seed, true)
-	mkSmall := func(name string, sv []uint64, mp map[uint64]uint64, spec [][2]int, present []int, nt int, kinds []string) *annLayout {
-		lo := &annLayout{name: name, g: small, initSV: sv, initMP: mp, nt: nt, nrel: 2, kinds: kinds}
+	small7 := lmm.NewGeomKind(c.Seed, true, true) // region 7 = the whole of block 4 (left un-ingested)
+	without := func(all []string, drop ...string) []string {
+		var out []string
+		for _, x := range all {
+			keep := true
+			for _, d := range drop {
+				if d == x {
+					keep = false
+				}
+			}
+			if keep {
+				out = append(out, x)
+			}
+		}
+		return out
+	}
+	mkSmall := func(name string, g *lmm.Geom, sv []uint64, mp map[uint64]uint64, spec [][2]int, present []int, nt int, kinds []string, fresh []int) *annLayout {
+		lo := &annLayout{name: name, g: g, initSV: sv, initMP: mp, nt: nt, nrel: 2, kinds: kinds, fresh: fresh}
 		lo.placePositions(rng, spec)
 		lo.makeBoxes(rng)
-		perm := rng.Perm(len(small.Blocks))
+		perm := rng.Perm(len(g.Blocks))
 		lo.roiBlocks = []int{perm[0] + 1, perm[1] + 1}
 		sort.Ints(lo.roiBlocks)
 		lo.seededInitElems(rng, present)
 		lo.overwrite = true
+		lo.classes = annAllClasses
+		if len(fresh) == 0 {
+			lo.classes = without(annAllClasses, "ingest")
+		}
+		// below the first layer of the exhaustive graph: everything but the POST elements / POST blocks
+		// families (hundreds of instances per state; the simulated behaviours chain those)
+		lo.deep = without(lo.classes, "post1", "pair", "retag", "post3", "blocks")
+		lo.variants = []string{"plain", "check", "lowmem"}
 		return lo
 	}
-	// A: bodies 1 = {sv1 (regions 1,2), sv2 (region 3)} and 3 = {sv3 (region 4), sv4 (region 5)}, background region 6;
-	//    positions: two in one region across blocks, three in block (0,0,0) (two of them on one body),
-	//    one at negative x, one on background
-	loA := mkSmall("small6/A", []uint64{1, 1, 2, 3, 4, 0}, map[uint64]uint64{1: 1, 2: 1, 3: 3, 4: 3},
-		[][2]int{{2, 1}, {2, 2}, {4, 1}, {3, 3}, {3, 1}, {6, 4}}, []int{1, 3, 4}, 2, []string{"PostSyn", "PreSyn", "Note"})
-	// B: the single voxel region, a supervoxel spanning two blocks, background at negative coordinates
-	loB := mkSmall("small6/B", []uint64{5, 5, 6, 7, 7, 0}, map[uint64]uint64{5: 5, 6: 5, 7: 7},
-		[][2]int{{1, 1}, {4, 1}, {5, 2}, {6, 3}, {3, 3}, {2, 2}}, []int{1, 2, 5, 6}, 2, []string{"PreSyn", "Gap", "Note", "Unknown"})
+	// A: bodies 1 = {sv1 (regions 1,2), sv2 (region 3)} and 3 = {sv3 (region 4), sv4 (region 5)}, background region 6,
+	//    block 4 (region 7) not ingested; positions: two in one region across blocks, three in block (0,0,0)
+	//    (two of them on one body), one at negative x, one (present from the start) in the un-ingested block
+	loA := mkSmall("small7/A", small7, []uint64{1, 1, 2, 3, 4, 0, 0}, map[uint64]uint64{1: 1, 2: 1, 3: 3, 4: 3},
+		[][2]int{{2, 1}, {2, 2}, {4, 1}, {3, 3}, {3, 1}, {7, 4}}, []int{1, 3, 4, 6}, 2, []string{"PostSyn", "PreSyn", "Note"}, []int{4})
+	// B: the single voxel region, a supervoxel spanning two blocks, background at negative coordinates; a second
+	//    annotation and a second labelsz are fed by the same labelmap
+	loB := mkSmall("small6/B", small, []uint64{5, 5, 6, 7, 7, 0}, map[uint64]uint64{5: 5, 6: 5, 7: 7},
+		[][2]int{{1, 1}, {4, 1}, {5, 2}, {6, 3}, {3, 3}, {2, 2}}, []int{1, 2, 5, 6}, 2, []string{"PreSyn", "Gap", "Note", "Unknown"}, nil)
+	loB.fanout = true
+	// L: the annotation is synced to a labelarray volume (same specification, the voxels carry the body; no
+	//    supervoxel operations): block 4 not ingested
+	loL := mkSmall("small7/L", small7, []uint64{1, 1, 2, 3, 4, 0, 0}, map[uint64]uint64{1: 1, 2: 1, 3: 3, 4: 3},
+		[][2]int{{2, 1}, {2, 2}, {4, 1}, {3, 3}, {3, 1}, {7, 4}}, []int{1, 3, 4, 6}, 2, []string{"PostSyn", "Gap", "Note"}, []int{4})
+	loL.labelarray = true
+	loL.classes = without(loL.classes, "cleave", "splitsv", "renumber", "overwritesv")
+	loL.deep = without(loL.deep, "cleave", "splitsv", "renumber", "overwritesv")
 	type plan struct {
 		lo             *annLayout
 		ops, mcOps     int
@@ -1189,13 +1494,22 @@ func checkC13(c *Ctx) int {
 	var plans []plan
 	if c.thorough() {
 		// C: three tags, all five kinds, seven positions
-		loC := mkSmall("small6/C", []uint64{2, 2, 3, 3, 4, 0}, map[uint64]uint64{2: 2, 3: 2, 4: 4},
-			[][2]int{{2, 1}, {2, 2}, {4, 1}, {3, 3}, {3, 1}, {6, 4}, {1, 1}}, []int{1, 2, 4, 7}, 3, []string{"PostSyn", "PreSyn", "Gap", "Note", "Unknown"})
-		plans = []plan{{loA, 2, 3, 120, 10, 1, 3}, {loB, 1, 2, 120, 10, 0, 1}, {loC, 1, 2, 40, 10, 0, 1}}
+		loC := mkSmall("small7/C", small7, []uint64{2, 2, 3, 3, 4, 0, 0}, map[uint64]uint64{2: 2, 3: 2, 4: 4},
+			[][2]int{{2, 1}, {2, 2}, {4, 1}, {3, 3}, {3, 1}, {7, 4}, {1, 1}}, []int{1, 2, 6, 7}, 3, []string{"PostSyn", "PreSyn", "Gap", "Note", "Unknown"}, []int{4})
+		plans = []plan{{loA, 2, 2, 120, 10, 1, 8}, {loB, 1, 2, 120, 10, 0, 1}, {loC, 1, 2, 60, 10, 0, 1}, {loL, 1, 2, 60, 10, 0, 1}}
 	} else {
-		plans = []plan{{loA, 1, 2, 32, 8, 0, 1}, {loB, 1, 1, 24, 8, 0, 1}}
+		plans = []plan{{loA, 1, 2, 32, 8, 0, 1}, {loB, 1, 1, 24, 8, 0, 1}, {loL, 1, 1, 8, 8, 0, 1}}
 	}
-	var states, trans, edges, simStates, late, subtrees int64
+	if only := os.Getenv("C13_ONLY"); only != "" { // debugging aid: one layout
+		var sel []plan
+		for _, pl := range plans {
+			if pl.lo.name == only {
+				sel = append(sel, pl)
+			}
+		}
+		plans = sel
+	}
+	var states, trans, edges, simStates, late, subtrees, afterRestart, otherOutcome int64
 	var tlcS, replayS float64
 	classes := map[string]int{}
 	var cmu sync.Mutex
@@ -1264,6 +1578,7 @@ func checkC13(c *Ctx) int {
 				w := &annWorker{c: c, run: run, lo: lo, w: wi, edges: &edges}
 				defer func() {
 					atomic.AddInt64(&late, w.late)
+					atomic.AddInt64(&otherOutcome, w.otherOutcome)
 					if w.n != nil {
 						c.DropNode(w.n)
 					}
@@ -1318,6 +1633,23 @@ func checkC13(c *Ctx) int {
 						child, ok := w.step(root, nil, e.L, e.Obs, cl)
 						run.Eval(fmt.Sprintf("%s|%s|%d", lo.name, gr.init, ei))
 						count(e.L)
+						if ok && e.L.Op.Op == "restart" {
+							// the restarted server is in the initial state of the specification again: every
+							// label operation (and element removal / move) enabled there must still reach the
+							// annotation and, through it, the labelsz instances (subscriptions rebuilt at load)
+							w.commit(child)
+							for _, ej := range initOut {
+								e2 := gr.edges[ej]
+								switch e2.L.Op.Op {
+								case "merge", "cleave", "splitsv", "split", "renumber", "overwrite", "ingest", "delete", "move":
+									w.step(child, []annOp{e.L}, e2.L, e2.Obs, cl.Clone())
+									run.Eval(fmt.Sprintf("%s|%s|restart+%d", lo.name, gr.init, ej))
+									count(e2.L)
+									atomic.AddInt64(&afterRestart, 1)
+								}
+							}
+							continue
+						}
 						if ok && gr.states[tk].parent == ei && len(gr.states[tk].out) > 0 && (uint64(ei)*2654435761+uint64(c.Seed))%uint64(pl.subDen) < uint64(pl.subNum) {
 							w.commit(child)
 							explore(tk, child, cl)
@@ -1366,14 +1698,18 @@ func checkC13(c *Ctx) int {
 	run.Set("operations_replayed_by_class", classes)
 	run.Set("comparisons_that_needed_a_second_read", late)
 	run.Set("depth1_states_with_all_outgoing_transitions_replayed", subtrees)
+	run.Set("label_and_element_operations_replayed_right_after_a_restart", afterRestart)
+	run.Set("moves_onto_an_occupied_position_where_the_server_took_the_other_permitted_outcome", otherOutcome)
 	run.Set("tlc_wall_s", tlcS)
 	run.Set("replay_wall_s", replayS)
-	run.Set("rule", "case = one transition of Annotation.tla (POST elements of one element new/overwriting with every kind and tag set, of two elements that exchange tag sets and become/stop being partners; DELETE element; move onto every free position; merge, cleave, split-supervoxel of the synced labelmap and a mutating voxel write of a region with a new label; POST blocks replacing a block's content followed by reload of annotation and labelsz): every transition of the TLC state graph to the stated depth plus every step of the simulated behaviours, executed on real annotation+labelmap+labelsz instances in a fresh child branch of the version holding the source state; after n.Idle() all-elements, elements/<size>/<offset> and blocks/<size>/<offset> for 10 boxes (negative offsets, single voxel, off-by-one borders), tag/<t> and label/<l> with and without relationships for every body and every label that is not a body, roi/<name>, labelsz count, counts, top, threshold for the 5 index types are compared with the views TLC derived from the element set")
+	run.Set("rule", "case = one transition of Annotation.tla: POST elements (one element new/overwriting with every kind and tag set; two elements that exchange tag sets and become/stop being partners or get one tag set; three elements over several blocks, new and existing mixed); DELETE element; move onto every free position and onto every occupied one (refused, or the occupant replaced); on the synced labelmap merge, cleave, split-supervoxel, body split, renumber, a mutating voxel write of a region with a new label / 0 / every supervoxel present (own body or mapped), and the ingest (POST raw without mutate, POST blocks) of a block left unwritten that already holds an element, with a new label or a present (mapped) supervoxel; POST blocks replacing one block's content or every block in one request, followed by POST reload (plain, ?check=true, ?inmemory=false) of the annotation and reload of the labelsz instances; a clean restart of the server; POST labels with the current lists.  Replayed: every transition of the TLC state graph to the stated depth, after the restart transition every label operation / delete / move of the initial state again, plus every step of the simulated behaviours (operation class drawn uniformly, then an instance), each in a fresh child branch of the version holding the source state; after n.Idle() all-elements, elements/<size>/<offset> and blocks/<size>/<offset> for 10 boxes (negative offsets, single voxel, off-by-one borders), tag/<t> and label/<l> with and without relationships for every body and every label that is not a body, roi/<name>, scan (4 variants), labelsz count, counts, top, threshold (also ?offset&n) for the 5 index types on an unrestricted labelsz and on one restricted to the ROI are compared with the views TLC derived from the element set; in one layout a second annotation (ScanAllForBlocks) synced to the same labelmap with its own labelsz is driven and compared alike")
 	run.Assume = []string{
 		"clients keep relationships mutual: every POST leaves the reference graph symmetric (the property speaks of elements that reference each other)",
-		"moves go onto free positions; the label state is checked against the specification before the views are compared (a labelmap divergence is C08's and is reported as an infrastructure error here)",
-		"positions are <=8 voxels placed by seed inside known regions of the 4-block lmm geometry; label ids are compared modulo the bijection bound from the server's responses",
-		"labelsz top/threshold: the order among equal counts is not prescribed",
+		"a move onto an occupied position may be refused (4xx, nothing changes) or replace the occupant; the interface text does not choose, the views must agree either way; the label state is checked against the specification before the views are compared (a labelmap divergence is C08's and is reported as an infrastructure error here)",
+		"positions are <=8 voxels placed by seed inside known regions of the 4-block lmm geometry; label ids are compared modulo the bijection bound from the server's responses (body split: from the stored voxels)",
+		"labelsz top/threshold: the order among equal counts is not prescribed; threshold?offset=1 may count ranks from 0 or from 1 (the interface text is ambiguous)",
+		"the un-ingested block consists of one whole region; an ingest request (POST raw without mutate / POST blocks) is only sent for a block never written before - re-ingesting over stored labels is outside the interface contract",
+		"scan: the property fixes no numbers; only that each of the four scan modes sees at least one non-empty key per block in use",
 	}
 	fmt.Printf("C13: tlc %d states / %d transitions model-checked, %d simulation states; %d transitions replayed in %.1fs (tlc %.1fs, replay %.1fs, %d late settles); violations=%d\n",
 		states, trans, simStates, edges, since(t0), tlcS, replayS, late, run.Violations())
